@@ -461,6 +461,8 @@ def correspond(ctx, xh, xm, xd, codes, jobs, thorough, proof_broken, failed, out
     replay_witnesses(ctx, xh)
     n_valid = 500 if not thorough else 12000
     n_mut = 1000 if not thorough else 30000
+    if for_c03 and not thorough:
+        n_valid, n_mut = 300, 500      # C03 adds its own streams; keeps its quick tier well below 3 minutes
     cases = gen_cases(ctx, xm, n_valid, n_mut, jobs)
     nreq = run_cases(ctx, xh, xm, cases, jobs, cfgs)
     ctx.coverage["traces_validated_against_impl"] = nreq
@@ -641,7 +643,10 @@ def judge(ctx, cases, cfgs, for_c03):
                             k = (c.op, s, moc, ff)
                             mism_codes[k] = mism_codes.get(k, 0) + 1
                             unexplained.append(("first fatal code differs from the model", c, (a, s, ns)))
-                    elif (s == "WF" or (s == "IG" and ns == 0)) and moc == "ok" and c.tag not in ("trunc-tail", "bad-bytes"):
+                    elif (s == "WF" or (s == "IG" and ns == 0)) and moc == "ok" and c.tag not in ("trunc-tail", "bad-bytes") \
+                            and c.tag not in KNOWN_TAGS:
+                        # (cases of a listed finding's class: the faithful model accepts them; an implementation that
+                        #  rejects them shows the repaired behaviour, which satisfies the Spec)
                         unexplained.append(("model accepts a mutant the implementation rejects", c, (a, s, ns)))
             if c.kind == "valid" or True:
                 ctx.distinct((c.kind, c.op, hex4(c.units), ns))
